@@ -264,7 +264,7 @@ class LiteralProvider(LoaderProvider, DumperProvider):
                 try:
                     if (type(data), data) in allowed_values_with_types:
                         return data
-                except TypeError:  # unhashable data can not be a literal value
+                except (TypeError, ArithmeticError):  # unhashable or incomparable (e.g. Decimal('sNaN')) data is not a literal value
                     pass
                 raise BadVariantLoadError(allowed_values_repr, data)
 
@@ -276,7 +276,7 @@ class LiteralProvider(LoaderProvider, DumperProvider):
                 try:
                     if data in allowed_values:
                         return data
-                except TypeError:  # unhashable data can not be a literal value
+                except (TypeError, ArithmeticError):  # unhashable or incomparable (e.g. Decimal('sNaN')) data is not a literal value
                     pass
                 raise BadVariantLoadError(allowed_values_repr, data)
 
